@@ -348,10 +348,10 @@ PROPS["C13"] = {
     "checked_share": 0.5,
     "cpu_budget_s": 20,
     "quick": {"budget_s": 45},
-    "thorough": {"budget_s": 400},
+    "thorough": {"budget_s": 480},
     "floors": {
         "quick": {"exhaustive_workloads": 16, "positions.write": 8000, "positions.seek": 8000, "positions.flush": 100, "positions.full": 8000, "ok_flush_stored_file_opens": 100000, "ok_flush_stored_file_opens_strict": 100000, "ok_metadata_reopen_checked": 20000, "set_len_recovered_content_known_again": 2000, "ok_flush_after_unrepeated_failed_set_len_checked": 3000, "ok_flush_readbacks": 50000, "ok_flush_after_failed_flush_readbacks": 5000, "ok_flush_reopen_readbacks": 50000, "end_of_workload_readbacks": 100000, "positions_run_with_both_set_len_policies": 10000, "interludes_run": 1000, "structural_calls_recovered": 1000},
-        "thorough": {"exhaustive_workloads": 96},
+        "thorough": {"exhaustive_workloads": 88},
     },
 }
 
